@@ -239,6 +239,9 @@ func genC21(tier string, seed uint64, idx int) *simkit.Plan {
 	renames := rng.Chance(1, 3)
 	overwrites := rng.Chance(1, 3)
 	recDeletes := rng.Chance(1, 3)
+	if rng.Chance(1, 3) {
+		p.SetC("lnover", 1) // links may land on existing file names (of another identity or plain)
+	}
 	n := rng.Range(8, 30)
 	pick := func() string { return names[rng.Intn(len(names))] }
 	// start from one or two files
@@ -382,9 +385,10 @@ func genC36(tier string, seed uint64, idx int) *simkit.Plan {
 	p.SetCS("store", storeFor(idx))
 	p.SetC("sig", int64(1+rng.Intn(1<<30)))
 	p.SetC("repl", 1)
-	if !rng.Chance(1, 3) {
-		p.SetC("noupd", 1) // no overwrites of existing entries, hence no update events (see the recorded finding)
+	if rng.Chance(1, 3) {
+		p.SetC("noupd", 1) // no overwrites of existing entries, hence no update events
 	}
+	p.SetCS("target", []string{"/backup", "/backup", "/b", "/t", "/bk/deep/er"}[rng.Intn(5)])
 	inside := []string{"/w/a", "/w/a/b", "/w/c", "/w/a/b/d", "/w/e"}
 	outside := []string{"/o", "/o/a", "/o/a/b"}
 	sibling := []string{"/w2", "/w2/a", "/w2/a/b", "/wx"}
